@@ -13,7 +13,7 @@ from .lib import build_lib
 from .loader import Repo, Unsupported
 from .ops import PyRaise, _and, _b
 from .spec import Contract, SpecDB
-from .state import Explorer, Obligation, PathInfeasible, State, Undecided
+from .state import Heap, Explorer, Obligation, PathInfeasible, State, Undecided
 from .tys import mk_sym
 from .values import *  # noqa: F401,F403
 from .loops import PathDone
@@ -194,6 +194,12 @@ class FunctionVerifier:
             st.assume(ip.spec_bool(r, env))
         for nm, vars_, expr in self.db.axioms:
             pass  # axioms are instantiated on demand by spec functions (see contracts)
+        # objects named by frame locations exist before the pre-state snapshot (lazily created map entries)
+        for loc in list(c.modifies) + [l for r in c.raises for l in r.modifies]:
+            try:
+                ip.location_keys([loc], env)
+            except (Unsupported, PyRaise, KeyError):
+                pass
         old = st.snapshot()
         ip.verify_env = env
         ip.verify_old = old
@@ -310,7 +316,7 @@ class FunctionVerifier:
         """a condition over the pre-state (raises.when)"""
         st = ip.st
         saved = (st.heap, st.ghost)
-        st.heap, st.ghost = dict(old[0]), dict(old[1])
+        st.heap, st.ghost = Heap(old[0]), dict(old[1])
         try:
             return ip.spec_bool(expr, env, old)
         finally:
@@ -349,7 +355,7 @@ class FunctionVerifier:
         old_heap, old_ghost = old
         saved = (st.heap, st.ghost)
         # locations are resolved in the pre-state
-        st.heap, st.ghost = dict(old_heap), dict(old_ghost)
+        st.heap, st.ghost = Heap(old_heap), dict(old_ghost)
         try:
             allowed = ip.location_keys(modifies, env)
         finally:
@@ -358,7 +364,7 @@ class FunctionVerifier:
         ghost_refs = {v.ref for v in old_ghost.values() if isinstance(v, (VList, VDict))}
         for key, ov in old_heap.items():
             nv = st.heap.get(key)
-            if nv is ov or key in allowed or key[0] in ghost_refs:
+            if nv is ov or key in allowed or key[0] in ghost_refs or key[1] == "cache":
                 continue
             if nv is None:
                 bad.append((key, None))
